@@ -232,6 +232,6 @@ pub fn run(ctx: &Ctx) {
     ctx.exhaustive("if_chains", 4 * 16 * 2 * 2, chain_nth, oracle);
     ctx.exhaustive("case_when", 4 * 7 * 7 * 7 * 7 * 4 * 2 * 2 * 2, case_nth, oracle);
     ctx.exhaustive("and_or", 4 * 8 * 16 * 2, logic_nth, oracle);
-    ctx.random("nested", ctx.pick(300_000, 1_500_000), rand_strategy, oracle);
+    ctx.random("nested", ctx.pick(300_000, 10_000_000), rand_strategy, oracle);
     let _ = gen::stress_scalars;
 }
